@@ -28,7 +28,19 @@ def run (j : Json) : Except String Json := do
         | _ => throw "bad error entry")
     | _ => throw "errors missing")
   if evs.isEmpty then
-    return Json.mkObj [("skip", true), ("why", "the evaluation did not fail: no trace")]
+    -- glom() raised an object that is not a GlomError (GlomError.wrap gave the original back)
+    match (← j.getObjVal? "impl").getObjVal? "unwrapped" with
+    | .ok (.str cls) =>
+      let couldWrap := match (← j.getObjVal? "impl").getObjVal? "could_wrap" with
+        | .ok (.bool b) => b
+        | _ => false
+      if couldWrap then
+        return Json.mkObj [("agree", false), ("holds", false), ("branch", "unwrapped-but-wrappable"),
+          ("why", s!"glom() raised a bare {cls} that can be re-created from its .args (so it can be wrapped): its message contains no target-spec trace"),
+          ("model", Json.mkObj [("trace", "")])]
+      else
+        return Json.mkObj [("skip", true), ("why", s!"glom() raised the user's own {cls} object, which cannot be re-created from its .args: outside the property (ASSUMPTIONS)")]
+    | _ => return Json.mkObj [("skip", true), ("why", "the evaluation did not fail: no trace")]
   let rootError ← j.getObjValAs? Nat "root_error"
   let width ← j.getObjValAs? Nat "width"
   let impl ← (← j.getObjVal? "impl").getObjValAs? String "trace"
@@ -47,7 +59,17 @@ def run (j : Json) : Except String Json := do
     | _ => false
   -- `traceback.format_exception_only` of an error whose own `__str__` raised
   let unrendered := errs.any (fun e => isInfix "<exception str() failed>".toList e.2)
-  let holds := !strFailed && !unrendered && checkC05 evs errText rootError impl && tailOK
+  -- the property on str(exc) itself: the trace the message contains satisfies the clauses
+  let msgOK := match message with
+    | some m => checkC05 evs errText rootError (msgTrace errText rootError m)
+    | none => true
+  -- tie: the message is the header, the model's trace at the default width, then the traceback lines
+  let msgWidth := ((← j.getObjVal? "impl").getObjValAs? Nat "msg_width").toOption
+  let msgAgree := match message, msgWidth with
+    | some m, some w => strFailed || isPrefix (messageHead evs errText rootError w) m.toList
+    | _, _ => true
+  let traceOK := checkC05 evs errText rootError impl
+  let holds := !strFailed && !unrendered && traceOK && tailOK && msgOK
   let modelHolds := checkC05 evs errText rootError model
   -- the tie of the structural theorems (Props/C05Spine) to the code: the recorded evaluation must
   -- be the event list of a well-formed evaluation tree whose root raises the root error
@@ -61,8 +83,10 @@ def run (j : Json) : Except String Json := do
       else if !onePath t.err t.kids then "the root error is the outcome of a call outside the propagation path"
       else ""
   let inDom := domainWhy == ""
-  return Json.mkObj [("agree", model == impl && inDom), ("holds", holds), ("in_domain", inDom), ("domain_why", domainWhy), ("model_holds", modelHolds), ("clauses", toJson (clausesC05 evs errText rootError impl)),
-    ("why", if holds then "" else if strFailed then "str(exc) raised: the error has no message" else if unrendered then "the message of an error in the trace could not be rendered: its __str__ raised" else if !tailOK then "the message does not end with the type and message of the original error" else "the trace does not begin with the root target / list the failing path in order / show the failing spec's target / show every failed branch / stop at the failing spec (it lists a spec that returned normally below it)"),
+  return Json.mkObj [("agree", model == impl && inDom && msgAgree), ("holds", holds), ("in_domain", inDom), ("domain_why", domainWhy), ("model_holds", modelHolds), ("clauses", toJson (clausesC05 evs errText rootError impl)),
+    ("message_agrees", msgAgree),
+    ("message_clauses", toJson (match message with | some m => clausesC05 evs errText rootError (msgTrace errText rootError m) | none => [])),
+    ("why", if holds then "" else if strFailed then "str(exc) raised: the error has no message" else if unrendered then "the message of an error in the trace could not be rendered: its __str__ raised" else if !tailOK then "the message does not end with the type and message of the original error" else if traceOK && !msgOK then "str(exc) does not contain a target-spec trace that begins with the root target / lists the failing path in order / shows the failing spec's target / shows every failed branch / stops at the failing spec" else "the trace does not begin with the root target / list the failing path in order / show the failing spec's target / show every failed branch / stop at the failing spec (it lists a spec that returned normally below it)"),
     ("model", Json.mkObj [("trace", model)]),
     ("branch", (if branching then "branching" else "linear") ++ (if chained then "+chain" else "") ++
                s!"-rows{rows.length}")]
